@@ -5,15 +5,16 @@
  * <spec-hex> decodes to a script, one item per line, tokens separated by one blank:
  *   F <flags>                          options for ly_ctx_new (LY_CTX_DISABLE_SEARCHDIRS is always added)
  *   T <0|1>                            1: print a data tree even when its schema nodes were replaced (F24 confirmation)
- *   M <name> <rev|-> <text-hex> ...    module source put into the repository served by the import callback (rest of line: model only)
+ *   M <name> <rev|-> <text-hex> ...    module source put into the repository served by the import callback (rest of line: model only);
+ *                                      may appear between steps; a source of the same name and revision is replaced
  *   S <name> <rev|-> <text-hex>        submodule source
- *   P <idx> <feats> ...                lys_parse() of the idx-th M source with the features
+ *   P <name> <rev|-> <feats>           lys_parse() of the repository's source name@rev with the features
  *   L <name> <rev|-> <feats> ...       ly_ctx_load_module()
  *   I <name> <rev|-> <feats> ...       lys_set_implemented() on the context's module name@rev
  *   C ...                              ly_ctx_compile()
  *   O <+|-> <bits> ...                 ly_ctx_set_options() / ly_ctx_unset_options()
  *   D <module>                         lyd_new_path(/module:c/l = "v"), kept alive to the end of the history
- *   <feats>: ~ = NULL, - = {NULL}, * = {"*",NULL}, else comma separated names.  Trailing tokens (fault description) are for the model.
+ *   <feats>: ~ = NULL, - = {NULL}, * = {"*",NULL}, else comma separated names.
  *
  * One reply token per P/L/I/C/O step:   <rc>|<mod>;<mod>...|h=<modules-hash>|cc=<change-count - count after ly_ctx_new>|d=<data>
  *   <mod> = name@rev:I<implemented>:L<latest_revision byte>:<feat>+|-,...:c<class>.<fnv32 of compiled print>   (c- = no compiled module)
@@ -237,13 +238,22 @@ history(const char *id, char *spec)
         if (!strcmp(tok[0], "F") && nt >= 2) { flags = atoi(tok[1]); continue; }
         if (!strcmp(tok[0], "T") && nt >= 2) { touch = atoi(tok[1]); continue; }
         if ((!strcmp(tok[0], "M") || !strcmp(tok[0], "S")) && nt >= 4) {
-            if (nsrc == MAXSRC) goto bad;
-            srcs[nsrc].name = strdup(tok[1]);
-            srcs[nsrc].rev = strcmp(tok[2], "-") ? strdup(tok[2]) : NULL;
-            srcs[nsrc].text = vp_unhex(tok[3], NULL);
-            srcs[nsrc].sub = tok[0][0] == 'S';
-            if (!srcs[nsrc].text) goto bad;
-            nsrc++;
+            int j, sub = tok[0][0] == 'S';
+            const char *rv = strcmp(tok[2], "-") ? tok[2] : NULL;
+            for (j = 0; j < nsrc; j++) {
+                if (srcs[j].sub == sub && !strcmp(srcs[j].name, tok[1]) && !strcmp(revcmp_key(srcs[j].rev), revcmp_key(rv))) break;
+            }
+            if (j == nsrc) {
+                if (nsrc == MAXSRC) goto bad;
+                srcs[j].name = strdup(tok[1]);
+                srcs[j].rev = rv ? strdup(rv) : NULL;
+                srcs[j].sub = sub;
+                nsrc++;
+            } else {
+                free(srcs[j].text);
+            }
+            srcs[j].text = vp_unhex(tok[3], NULL);
+            if (!srcs[j].text) goto bad;
             continue;
         }
         if (!ctx) {
@@ -255,13 +265,16 @@ history(const char *id, char *spec)
             }
             cc0 = ly_ctx_get_change_count(ctx);
         }
-        if (!strcmp(tok[0], "P") && nt >= 3) {
-            int k = atoi(tok[1]), j, n = -1;
+        if (!strcmp(tok[0], "P") && nt >= 4) {
+            int j;
             struct ly_in *in = NULL;
-            for (j = 0; j < nsrc; j++) if (!srcs[j].sub && ++n == k) break;
+            const char *rv = strcmp(tok[2], "-") ? tok[2] : NULL;
+            for (j = 0; j < nsrc; j++) {
+                if (!srcs[j].sub && !strcmp(srcs[j].name, tok[1]) && !strcmp(revcmp_key(srcs[j].rev), revcmp_key(rv))) break;
+            }
             if (j == nsrc) goto bad;
             ly_in_new_memory(srcs[j].text, &in);
-            rc = lys_parse(ctx, in, LYS_IN_YANG, feats_parse(tok[2], farr, 16), NULL);
+            rc = lys_parse(ctx, in, LYS_IN_YANG, feats_parse(tok[3], farr, 16), NULL);
             ly_in_free(in, 0);
         } else if (!strcmp(tok[0], "L") && nt >= 4) {
             /* no LY_ERR is returned: 0 / 1 */
@@ -319,7 +332,7 @@ main(void)
 {
     struct vp_req r = {0};
 
-    ly_log_options(LY_LOSTORE_LAST);
+    ly_log_options(getenv("VP_CTX_LOG") ? (LY_LOLOG | LY_LOSTORE_LAST) : LY_LOSTORE_LAST);
     while (vp_next(&r)) {
         const char *id = r.tok[0], *op = r.ntok > 2 ? r.tok[2] : "";
 
